@@ -437,3 +437,65 @@ def horner_index_dtype(ctx, fi, rule):
                'wraps around as soon as it exceeds that type\'s range, and records are counted in the wrong cells'),
                construct='element type of the cell index `%s`' % acc)
     return n
+
+
+def grouped_runs(ctx, node_fi, rule):
+    """`itertools.groupby(X, key=g)` yields one group per RUN of equal g-values: it partitions X by g only if X is ordered so that equal
+    g-values are adjacent - sorted by g itself or by an injective function of it (its position in a duplicate-free sequence, a tuple
+    starting with it).  A sort key that several g-values can share - the SIZE of an attribute (`domain[a]`), a length - lets their
+    elements interleave: the same g-value then comes in several runs, and a dict built from the groups keeps only the last of them.
+    One obligation per groupby whose input is sorted in the same function; a sort key this rule cannot relate to g is an analysis error."""
+    import re
+    raw = getattr(node_fi, 'original', node_fi)
+    n = 0
+
+    def keytext(k):
+        if k is None:
+            return '_e'
+        if isinstance(k, ast.Lambda) and len(k.args.args) == 1:
+            a = k.args.args[0].arg
+            body = ast.parse(U(k.body), mode='eval').body
+
+            class Rn(ast.NodeTransformer):
+                def visit_Name(self, x):
+                    return ast.copy_location(ast.Name(id='_e', ctx=x.ctx), x) if x.id == a else x
+            return U(Rn().visit(body)).replace(' ', '')
+        if U(k) in ('operator.itemgetter(0)', 'itemgetter(0)'):
+            return '_e[0]'
+        return None
+    for call in [c for c in ast.walk(raw.node) if isinstance(c, ast.Call) and U(c.func) in ('itertools.groupby', 'groupby') and c.args]:
+        X = call.args[0]
+        kg = next((k.value for k in call.keywords if k.arg == 'key'), call.args[1] if len(call.args) > 1 else None)
+        ks = None
+        found = False
+        if isinstance(X, ast.Call) and U(X.func) == 'sorted' and X.args:
+            ks, found = next((k.value for k in X.keywords if k.arg == 'key'), None), True
+        elif isinstance(X, ast.Name):
+            for st in ast.walk(raw.node):
+                if getattr(st, 'lineno', 10 ** 9) > call.lineno:
+                    continue
+                if isinstance(st, ast.Call) and isinstance(st.func, ast.Attribute) and st.func.attr == 'sort' and U(st.func.value) == X.id:
+                    ks, found = next((k.value for k in st.keywords if k.arg == 'key'), None), True
+                if isinstance(st, ast.Assign) and len(st.targets) == 1 and U(st.targets[0]) == X.id and isinstance(st.value, ast.Call) \
+                        and U(st.value.func) == 'sorted':
+                    ks, found = next((k.value for k in st.value.keywords if k.arg == 'key'), None), True
+        if not found:
+            continue
+        g, s = keytext(kg), keytext(ks)
+        if g is None or s is None:
+            raise AnalysisError('%s: groupby / sort keys `%s` / `%s` in no recognised form' % (raw.qualname, U(kg)[:40] if kg is not None else None,
+                                                                                            U(ks)[:40] if ks is not None else None))
+        ge = re.escape(g)
+        if s == g or re.fullmatch(r'[\w\.]+\.index\(%s\)' % ge, s) or re.fullmatch(r'\(%s,.*\)' % ge, s) or re.fullmatch(r'(str|repr|id)\(%s\)' % ge, s) \
+                or (g != '_e' and s == '_e'):
+            ok, why = True, 'equal group keys are adjacent'
+        elif re.fullmatch(r'(self\.)?\w*domain\[%s\]' % ge, s) or re.fullmatch(r'len\(%s\)' % ge, s) or re.fullmatch(r'[\w\.]*\.size\(%s\)' % ge, s) \
+                or re.fullmatch(r'[\w\.]*shape\[.*\]', s):
+            ok, why = False, ('the sort key `%s` is a SIZE, which different group keys share: their elements interleave (the sort is stable), the same key '
+                              'comes in several runs and a mapping built from the groups keeps only the last run' % s.replace('_e', 'e'))
+        else:
+            raise AnalysisError('%s: groupby by `%s` over a sequence sorted by `%s`: whether equal group keys end up adjacent is not decided' % (raw.qualname, g, s))
+        n += 1
+        ctx.ob(rule, node_fi, call, ok, 'groupby(%s, key: %s) partitions its input only if equal keys are adjacent; the input is sorted by `%s`: %s'
+               % (U(X)[:30], g.replace('_e', 'e'), s.replace('_e', 'e'), why), construct='grouping of `%s`' % U(X)[:40])
+    return n
